@@ -260,7 +260,7 @@ struct sig_driver : driver
       auto &sp = S[static_cast<std::size_t>(k)];
       bool empty = true;
       vj::J call;
-      bool done = false, over = false;
+      bool done = false, over = false, threw = false;
       int const init = (index * 7 + k) % 50, arg = (index + 3 * k) % 16;
       int ret = 0;
       cbs.clear();
@@ -280,12 +280,16 @@ struct sig_driver : driver
           {
             over = true;
           }
+          catch (std::exception const &)
+          {
+            threw = true; // no callback of the harness throws this
+          }
         }
       }
       vj::J jc('['), jm('[');
       for (auto const &x : cbs) jc.el_raw(vj::J().kv("c", x.c).kv("arg", x.arg).kv("r", x.r).str());
       for (auto const &x : combs) jm.el_raw(vj::J().kv("a", x.a).kv("b", x.b).kv("r", x.r).str());
-      call.kv("done", done).kv("init", init).kv("arg", arg).kv("ret", ret).kv("over", over).raw("cbs", jc.str()).raw("combs", jm.str());
+      call.kv("done", done).kv("init", init).kv("arg", arg).kv("ret", ret).kv("over", over).kv("threw", threw).raw("cbs", jc.str()).raw("combs", jm.str());
       r.kv("live", sp != nullptr);
       if (sp) r.kv("empty", empty).raw("call", call.str());
       lists.el_raw(r.str());
